@@ -136,7 +136,7 @@ def shouldSkipRewardsToAsset (now : Time) (a : Asset) (info : ValInfo) : Bool :=
 
 /-- `AddAssetsToRewardPool` -/
 def addAssetsToRewardPool (val : AVal) (coins : Coins) : M AVal := do
-  if val.info.totalDelShares.length = 0 then return val
+  if val.info.totalDelShares.length = 0 then pure val else do
   let w ← getW
   let alliances := (allAssets w).filter fun a => !shouldSkipRewardsToAsset w.time a val.info
   let srw (a : Asset) : Dec := quoInt (mul a.weight (totalTokensWithAsset val.info a)) a.totalTokens
@@ -158,10 +158,9 @@ def claimValidatorRewards (val : AVal) : M AVal := do
   let hasDelegation : Bool := match AL.get w.staking.vals val.id with
     | some sv => sv.modShares.isSome
     | none => false
-  if !hasDelegation then return val
+  if !hasDelegation then pure val else do
   let coins ← withdrawRewards val.id
-  if Coins.isZero coins then return val
-  addAssetsToRewardPool val coins
+  if Coins.isZero coins then pure val else addAssetsToRewardPool val coins
 
 /-- `accumulateRewards` -/
 def accumulateRewards (latest hist : List RewardHistory) (a : Asset) (weight : Dec)
@@ -205,7 +204,7 @@ def claimDelegationRewards (del : Acct) (val : AVal) (d : Denom) : M (Coins × A
   match getAsset w d with
   | none => throwE "unknown_asset"
   | some a =>
-    if !rewardsStarted a w.time then return ([], val)
+    if !rewardsStarted a w.time then pure ([], val) else
     match getDelegation w del val.id d with
     | none => throwE "no_delegation"
     | some dl =>
@@ -220,13 +219,13 @@ def claimDelegationRewards (del : Acct) (val : AVal) (d : Denom) : M (Coins × A
 
 /-- `updateValidatorShares` (mutates the caller's validator through the embedded pointer) -/
 def updateValidatorShares (val : AVal) (delShares valShares : DecCoins) (isAdd : Bool) : M AVal := do
-  let info' ← if isAdd then
+  let info' ← liftE (if isAdd then
       pure { val.info with totalDelShares := DecCoins.add val.info.totalDelShares delShares,
                            valShares := DecCoins.add val.info.valShares valShares }
     else do
-      let tds ← liftE (subtractDecCoinsWithRounding val.info.totalDelShares delShares)
-      let vs ← liftE (subtractDecCoinsWithRounding val.info.valShares valShares)
-      pure { val.info with totalDelShares := tds, valShares := vs }
+      let tds ← subtractDecCoinsWithRounding val.info.totalDelShares delShares
+      let vs ← subtractDecCoinsWithRounding val.info.valShares valShares
+      pure { val.info with totalDelShares := tds, valShares := vs } : Except Err ValInfo)
   let val' := { val with info := info' }
   setValidator val'
   pure val'
@@ -257,23 +256,27 @@ def validateDelegatedAmount (dlShares : Dec) (amt : Int) (info : ValInfo) (a : A
 
 /-- `ResetAssetAndValidators` -/
 def resetAssetAndValidators (a : Asset) : M Unit := do
-  if a.totalTokens ≠ 0 then return ()
+  if a.totalTokens ≠ 0 then pure () else do
   modifyW fun w => { w with vals := w.vals.map fun (v, info) =>
     (v, { info with valShares := info.valShares.filter fun c => c.1 ≠ a.denom }) }
   setAsset { a with totalValShares := 0 }
 
+/-- first half of `ClearDustDelegation`: a delegation that is worth no tokens is deleted; returns its shares -/
+def clearDustShares (del : Acct) (val : AVal) (a : Asset) : M Dec := do
+  let w ← getW
+  match getDelegation w del val.id a.denom with
+  | none => pure 0
+  | some dl => do
+    let left ← liftE (delegationTokensWithShares dl.shares val.info a)
+    if left = 0 then do
+      deleteDelegation dl.del val.id a.denom
+      let _ ← liftE (mkDecCoins a.denom dl.shares)
+      pure dl.shares
+    else pure 0
+
 /-- `ClearDustDelegation` -/
 def clearDustDelegation (del : Acct) (val : AVal) (a : Asset) : M Unit := do
-  let w ← getW
-  let delSharesToRemove ← match getDelegation w del val.id a.denom with
-    | none => pure (0 : Dec)
-    | some dl => do
-      let left ← liftE (delegationTokensWithShares dl.shares val.info a)
-      if left = 0 then do
-        deleteDelegation dl.del val.id a.denom
-        let _ ← liftE (mkDecCoins a.denom dl.shares)
-        pure dl.shares
-      else pure 0
+  let delSharesToRemove ← clearDustShares del val a
   let valSharesToRemove : Dec :=
     if totalTokensWithAsset val.info a = 0 then valSharesWithDenom val.info a.denom else 0
   let dsc ← liftE (mkDecCoins a.denom delSharesToRemove)
@@ -320,6 +323,16 @@ def addRedelegation (del : Acct) (src dst : ValId) (d : Denom) (amt : Int) (comp
 def hasRedelegation (w : World) (del : Acct) (v : ValId) (d : Denom) : Bool :=
   w.redels.any fun (k, _) => k.1 == del && k.2.1 == d && k.2.2.1 == v
 
+/-- settle a validator before stake arrives on it: an existing position claims (which settles the validator),
+    otherwise the validator's pending rewards are indexed first (`Delegate` l.43-55; `Redelegate` after the fix) -/
+def settleBeforeDeposit (del : Acct) (val : AVal) (d : Denom) : M AVal := do
+  let w ← getW
+  match getDelegation w del val.id d with
+  | some _ => do
+    let (_, v) ← claimDelegationRewards del val d
+    pure v
+  | none => claimValidatorRewards val
+
 /-- `Keeper.Delegate` -/
 def delegate (del : Acct) (val : AVal) (d : Denom) (amt : Int) : M Unit := do
   let w ← getW
@@ -327,10 +340,7 @@ def delegate (del : Acct) (val : AVal) (d : Denom) (amt : Int) : M Unit := do
   | none => throwE "notfound_asset"
   | some a =>
     sendCoins del accModule (Coins.single d amt)
-    let w ← getW
-    let val ← match getDelegation w del val.id d with
-      | some _ => do let (_, v) ← claimDelegationRewards del val d; pure v
-      | none => claimValidatorRewards val
+    let val ← settleBeforeDeposit del val d
     let newDelShares ← upsertDelegationWithNewTokens del val d amt a
     let newValShares ← liftE (validatorShares a amt)
     setAsset { a with totalTokens := a.totalTokens + amt, totalValShares := a.totalValShares + newValShares }
@@ -345,13 +355,13 @@ def undelegate (del : Acct) (val : AVal) (d : Denom) (amt : Int) : M Unit := do
   match getAsset w d with
   | none => throwE "notfound_asset"
   | some a =>
-    if (getDelegation w del val.id d).isNone then throwE "no_delegation"
+    guardE ((getDelegation w del val.id d).isNone) "no_delegation"
     let (_, val) ← claimDelegationRewards del val d
     let w ← getW
     let dl : Delegation := (getDelegation w del val.id d).getD default
     let sharesToUndelegate ← liftE (validateDelegatedAmount dl.shares amt val.info a)
     let coinsToUndelegate ← liftE (delegationTokensWithShares sharesToUndelegate val.info a)
-    if amt > coinsToUndelegate then throwE "insufficient_tokens"
+    guardE (amt > coinsToUndelegate) "insufficient_tokens"
     let valSharesToRemove ← liftE (validatorShares a amt)
     let a' : Asset := { a with totalTokens := a.totalTokens - amt,
                                totalValShares := a.totalValShares - valSharesToRemove }
@@ -366,23 +376,21 @@ def undelegate (del : Acct) (val : AVal) (d : Denom) (amt : Int) : M Unit := do
 
 /-- `Keeper.Redelegate` -/
 def redelegate (del : Acct) (src dst : AVal) (d : Denom) (amt : Int) : M Unit := do
-  if src.id = dst.id then throwE "same_validator"
+  guardE (src.id = dst.id) "same_validator"
   let w ← getW
   match getAsset w d with
   | none => throwE "notfound_asset"
   | some a =>
-    if (getDelegation w del src.id d).isNone then throwE "no_delegation"
+    guardE ((getDelegation w del src.id d).isNone) "no_delegation"
     let (_, src) ← claimDelegationRewards del src d
     let w ← getW
     let srcDl : Delegation := (getDelegation w del src.id d).getD default
-    let dst ← match getDelegation w del dst.id d with
-      | some _ => do let (_, v) ← claimDelegationRewards del dst d; pure v
-      | none => claimValidatorRewards dst
+    let dst ← settleBeforeDeposit del dst d
     let sharesToRemove ← liftE (validateDelegatedAmount srcDl.shares amt src.info a)
     let coinsToRedelegate ← liftE (delegationTokensWithShares sharesToRemove src.info a)
-    if amt > coinsToRedelegate then throwE "insufficient_tokens"
+    guardE (amt > coinsToRedelegate) "insufficient_tokens"
     let w ← getW
-    if hasRedelegation w del src.id d then throwE "transitive"
+    guardE (hasRedelegation w del src.id d) "transitive"
     let completion := w.time + w.staking.unbondingTime
     let changedValShares ← liftE (validatorShares a amt)
     reduceDelegationShares del src.id d sharesToRemove srcDl
@@ -430,27 +438,27 @@ def slashRedelegations (v : ValId) (fraction : Dec) : M Unit := do
   forEachM (fun (k : RedelIdxKey) => do
     let w ← getW
     let (_, completion, d, dst, del) := k
-    if completion < w.time then return ()
+    if completion < w.time then pure () else
     match AL.get w.redels (del, d, dst, completion) with
     | none => throwE "other"
     | some r =>
       let dstVal ← getAllianceValidator r.dst
       -- a destination position that is gone is skipped (checked before any reward is claimed)
-      if (getDelegation w r.del r.dst r.denom).isNone then return ()
+      if (getDelegation w r.del r.dst r.denom).isNone then pure () else do
       let (_, dstVal) ← claimDelegationRewards r.del dstVal r.denom
       let w ← getW
       match getDelegation w r.del r.dst r.denom with
-      | none => return ()
+      | none => pure ()
       | some dl =>
         match getAsset w r.denom with
-        | none => return ()
+        | none => pure ()
         | some a =>
           let tokensToSlash := truncateInt (mulInt fraction r.amount)
           -- capped at what the position still holds
-          let sharesToSlash ← match validateDelegatedAmount dl.shares tokensToSlash dstVal.info a with
-            | .ok s => pure s
-            | .error (.err "insufficient_shares") => pure dl.shares
-            | .error e => liftE (.error e)
+          let sharesToSlash ← liftE (match validateDelegatedAmount dl.shares tokensToSlash dstVal.info a with
+            | .ok s => .ok s
+            | .error (.err "insufficient_shares") => .ok dl.shares
+            | .error e => .error e)
           let sc ← liftE (mkDecCoins a.denom sharesToSlash)
           let tds ← liftE (decCoinsSub dstVal.info.totalDelShares sc)
           setValidator { dstVal with info := { dstVal.info with totalDelShares := tds } }
@@ -472,7 +480,7 @@ def slashUndelegations (v : ValId) (fraction : Dec) : M Unit := do
   forEachM (fun (k : UndelIdxKey) => do
     let w ← getW
     let (_, completion, d, del) := k
-    if completion < w.time then return ()
+    if completion < w.time then pure () else do
     let bucket := (AL.get w.undelQueue (completion, del)).getD []
     forEachM (fun (e : Undel) =>
       if e.val == v && e.denom == d then sendCoins accModule accFee (Coins.single e.denom (slashEntryCut v d fraction e))
@@ -481,7 +489,7 @@ def slashUndelegations (v : ValId) (fraction : Dec) : M Unit := do
 
 /-- `SlashValidator` -/
 def slashValidator (v : ValId) (fraction : Dec) : M Unit := do
-  if fraction ≤ 0 ∨ fraction > one then throwE "invalid_fraction"
+  guardE (fraction ≤ 0 ∨ fraction > one) "invalid_fraction"
   let val ← getAllianceValidator v
   let slashed ← val.info.valShares.foldlM (fun (acc : DecCoins) (share : Denom × Dec) => do
     let toSlash := mul share.2 fraction
